@@ -248,6 +248,9 @@ pub struct Recorder {
     pub subs: BTreeMap<String, SubStats>,
     pub violations: Vec<Violation>,
     pub notes: Vec<String>,
+    /// harness trouble that prevents a verdict (exit 2, never a violation)
+    #[serde(default)]
+    pub inconclusive: Vec<String>,
 }
 
 const SAMPLE_CAP: usize = 3;
@@ -322,6 +325,7 @@ impl Recorder {
         }
         self.violations.extend(other.violations);
         self.notes.extend(other.notes);
+        self.inconclusive.extend(other.inconclusive);
     }
 }
 
@@ -816,6 +820,7 @@ pub fn main(props: Vec<Property>) -> ! {
         }
     }
     let _ = std::fs::remove_dir_all(&dir);
+    inconclusive.extend(rec.inconclusive.iter().cloned());
     let wall = t0.elapsed().as_secs_f64();
 
     // replays for violations (dedupe by sub+sig)
